@@ -289,6 +289,11 @@ def rule_r8(ctx):
         imported = any(isinstance(i, ast.ImportFrom) and (i.module or "").endswith("helpers") and any(a.name == "RE_NONTERMINAL" and a.asname in (None, "RE_NONTERMINAL") for a in i.names) for i in ast.walk(m.tree))
         if local is None and imported:
             ctx.ok("R8-one-tokenisation", f"{rel}:RE_NONTERMINAL", "pattern imported from helpers", site(uses[0]), f"{len(uses)} use(s)")
+        elif local is not None and not (isinstance(local, ast.Call) and src(local.func) == "re.compile" and local.args and isinstance(local.args[0], ast.Constant)):
+            if src(local).split(".")[-1] == "RE_NONTERMINAL" and "helpers" in src(local):
+                ctx.ok("R8-one-tokenisation", f"{rel}:RE_NONTERMINAL", "alias of helpers.RE_NONTERMINAL", site(local), src(local))
+            else:
+                raise Unrecognised("C10.R8", f"{rel}:RE_NONTERMINAL", f"local definition `{src(local)[:60]}` is not a constant pattern")
         elif local is not None:
             same = isinstance(local, ast.Call) and src(local.func) == "re.compile" and local.args and isinstance(local.args[0], ast.Constant) and local.args[0].value == pattern and len(local.args) == 1
             ctx.check(same, "R8-one-tokenisation", f"{rel}:RE_NONTERMINAL", "local pattern identical to helpers.RE_NONTERMINAL", site(local),
@@ -320,7 +325,10 @@ def rule_r9(ctx):
     a = spread[0].args[0]
     if isinstance(a, ast.Name) and a.id == tok:
         ctx.ok("R9-terminals-verbatim", c, "terminal characters taken as they are", site(spread[0]), src(spread[0]))
-    elif any(isinstance(x, ast.Name) and x.id == tok for x in ast.walk(a)) and isinstance(a, ast.Call):
+    elif isinstance(a, ast.Call) and call_name(a) in ("list", "tuple", "iter", "str") and len(a.args) == 1 and isinstance(a.args[0], ast.Name) and a.args[0].id == tok:
+        ctx.ok("R9-terminals-verbatim", c, "terminal characters taken as they are", site(spread[0]), src(spread[0]))
+    elif isinstance(a, ast.Call) and any(isinstance(x, ast.Name) and x.id == tok for x in ast.walk(a)) and (
+            (call_name(a) or "").split(".")[-1] in ("normalize", "lower", "upper", "casefold", "strip", "lstrip", "rstrip", "replace", "translate", "swapcase", "title", "expandtabs", "encode", "decode", "sub")):
         ctx.viol("R9-terminals-verbatim", c, "terminal characters taken as they are", site(spread[0]),
                  f"the characters of a terminal are taken from `{' '.join(src(a).split())[:70]}`, not from the terminal itself, while the input is scanned unchanged: "
                  "a string the grammar spells out is rejected whenever the transformation changes it, and the transformed spelling is accepted instead")
@@ -352,8 +360,15 @@ def rule_r10(ctx):
         from ..core import origins
 
         tainted = [r for r in rets if any(g in origins(fn, r.value) for g in loads)]
-        if tainted:
-            idn = [x for x in walk_local(fn) if isinstance(x, ast.Compare) and any(isinstance(o, (ast.Is, ast.IsNot)) for o in x.ops)]
+        dict_like = all(isinstance(getattr(x, "_parent", None), ast.Subscript) or (isinstance(getattr(x, "_parent", None), ast.Attribute) and x._parent.attr in ("get", "setdefault", "items", "keys"))
+                        or isinstance(getattr(x, "_parent", None), ast.Compare)
+                        for x in walk_local(fn) if isinstance(x, ast.Name) and x.id in loads and isinstance(x.ctx, ast.Load))
+        idn = [x for x in walk_local(fn) if isinstance(x, ast.Compare) and any(isinstance(o, (ast.Is, ast.IsNot)) for o in x.ops) and not any(isinstance(c_, ast.Constant) and c_.value is None for c_ in [x.left] + x.comparators)]
+        if tainted and dict_like and not idn:
+            ctx.note("R10-no-hidden-state", f"{PARSER}:{q}", f"dict memo in {loads}", site(tainted[0]), "a keyed memo: judged by the memo-key rules, not here")
+        elif tainted and not idn:
+            raise Unrecognised("C10.R10", f"{PARSER}:{q}", f"returns run-time module state {loads} under a guard that is not understood")
+        elif tainted:
             ctx.viol("R10-no-hidden-state", f"{PARSER}:{q}", f"result independent of earlier calls (globals {loads})", site(tainted[0]),
                      f"`{q}` returns a value taken from the module-level variable(s) {loads}, which are assigned at run time"
                      + (f" and guarded only by object identity (`{' '.join(src(idn[0]).split())[:50]}`)" if idn else "")
@@ -367,6 +382,9 @@ def run(ctx) -> str:
     ctx.guarded("R8", lambda: rule_r8(ctx))
     ctx.guarded("R9", lambda: rule_r9(ctx))
     ctx.guarded("R10", lambda: rule_r10(ctx))
+    from ..memo import check_memo_keys
+
+    ctx.guarded("R11", lambda: ctx.inventory.__setitem__("parser_dict_memos", check_memo_keys(ctx, "R11-memo-key", [PARSER], min_sites=0)))
     ctx.guarded("R7", lambda: rule_r7(ctx))
     ctx.guarded("R6", lambda: rule_r6(ctx))
     ctx.guarded("R5", lambda: rule_r5(ctx))
